@@ -762,7 +762,13 @@ func genHistory(r *RNG, o histOpts, cfg string) *hist {
 				ti := pickTable()
 				ann := !seen[ti] || r.Chance(1, 2)
 				seen[ti] = true
-				u.changes = append(u.changes, hChange{rows: genRows(r, h, o, ti, ts, ann)})
+				cts := ts
+				if r.Chance(1, 4) {
+					// SET TIMESTAMP inside the transaction / a clock that stepped: a change stamped later or earlier than the
+					// commit event (the transaction's own timestamp is the commit event's)
+					cts = ts + uint32(r.Pick(1, 3, 60, 100000)) - uint32(r.Pick(0, 0, 2, 50))
+				}
+				u.changes = append(u.changes, hChange{rows: genRows(r, h, o, ti, cts, ann)})
 			}
 			h.units = append(h.units, u)
 		case k < 7:
